@@ -541,6 +541,31 @@ theorem C15_no_early_exit (md : Mode) (pre post : List Ev) (pc' : PC)
     (run md init (pre ++ .step .cStop0 :: post)).1.halted ≠ some .exit1 :=
   C15_order_no_early_exit Layout.current rfl md pre post pc' hpc hpost hnd h2 hrun
 
+/-! ## what the line driver prints is what the theorems speak about
+
+The driver (`Driver.lean`) prints, for the event list `schedule …`, the entries of `trace`: (event, observations of that
+event, state after it).  The theorems are about `run`, `exec` and `deliver`. -/
+
+/-- **Linking lemma.**  For every split `evs = pre ++ e :: post` the entry the driver prints at that position is the
+    event `e` with the observations and the state of `exec` applied to the state `run` reaches after `pre`
+    (for a signal in a running process: of `deliver`); the concatenated observations are `run`'s; the trace has one
+    entry per event. -/
+theorem C15_trace_is_run (md : Mode) (s : St) (pre : List Ev) (e : Ev) (post : List Ev) :
+    (trace md s (pre ++ e :: post))[pre.length]? =
+        some (e, (exec md (run md s pre).1 e).2, (exec md (run md s pre).1 e).1) ∧
+    ((trace md s (pre ++ e :: post)).map (fun t => t.2.1)).flatten = (run md s (pre ++ e :: post)).2 ∧
+    (trace md s (pre ++ e :: post)).length = (pre ++ e :: post).length ∧
+    (∀ g, e = .sig g → (run md s pre).1.halted = none →
+        exec md (run md s pre).1 e = deliver md (run md s pre).1 g) := by
+  refine ⟨?_, trace_obs md s _, trace_length md s _, ?_⟩
+  · rw [trace_append]
+    have hl : (trace md s pre).length = pre.length := trace_length md s pre
+    rw [List.getElem?_append_right (by omega)]
+    simp [hl, trace]
+  · intro g he hh
+    subst he
+    exact exec_sig md _ g hh
+
 /-! ## the correspondence inputs are instances of the theorems -/
 
 /-- every case the driver/harness run (`schedule` of a well-formed macro program) is an event sequence of the
